@@ -45,6 +45,29 @@ DESC = {
  "C20-b": ("storage-id check skipped once the manager holds a cursor", "location turns foreign after a first successful run"),
 }
 
+DESC.update({
+ "C01-r2a": ("POST handler takes parsers from a sync.Pool; Reset keeps the literal-key cache", "two POSTs whose contexts bind the same prefix to different namespaces (caught by C15, which posts; C01's own check writes through the store API)"),
+ "C01-r2b": ("batch txnTime taken before the dataset write lock", "a batch queued behind a transaction on the same entity: lock order and time order differ"),
+ "C02-r2a": ("StoreEntities releases the write lock before the commit", "two overlapping writers and a token-carrying reader in between"),
+ "C02-r2b": ("reverse listing over HTTP advances the iterator once more after the limit", "paged GET changes?reverse=true"),
+ "C03-r2a": ("old-reference removal drops only the first occurrence of a target", "previous version lists one target twice under a predicate, next one fewer times"),
+ "C03-r2b": ("continuation key no longer remembered as emitted (if/else-if merge)", "entity in two datasets carrying the same pair, page ends on the newer key"),
+ "C04-r2a": ("a rejected batch discards the shared id transaction (as C13-b)", "rejected batch inside another writer's window"),
+ "C04-r2b": ("ExecuteTransaction stamps the transaction with its arrival time", "transaction waits for a lock while a batch on the same entity is acknowledged"),
+ "C05-r2a": ("core.Dataset write that changes publicNamespaces takes the dataset's write lock", "lock order core.Dataset -> X against a writer of new ids (X -> core.Dataset)"),
+ "C05-r2b": ("batches beyond 65 536 entities stored in slices", "one batch of > 65 536 entities and a reader / a kill between slices (caught by C04's kill enumeration in quick, by C05 S16 in thorough)"),
+ "C06-r2a": ("transaction time taken before waiting for the write locks", "an instant taken while the transaction waits - the unchanged tree has the same window between stamp and commit; outside C06's quantifier (section 9)"),
+ "C06-r2b": ("incoming scan seeks past newer versions, then skips the next referrer's first key", "two referrers of one target, one rewritten after t, inverse query as of t"),
+ "C07-r2a": ("the atomic delete persists the pre-swap deleted set", "kill between removing the dataset record and storing the deleted set"),
+ "C07-r2b": ("CreateDataset checks existence before taking the lock only", "two creates of one name with a by-name write in between, then delete"),
+ "C08-r2a": ("latest-only change page stops after scanning 4*limit entries", "a run of >= 4*batchSize superseded entries in the source"),
+ "C08-r2b": ("token persisted when a run is killed", "incremental run killed at a batch boundary, then a clean run"),
+ "C09-r2a": ("HTTP handler matches the sync id only when the request carries one", "running sync X + a request with the end header and no id"),
+ "C09-r2b": ("seen-ids recorded after the commit in StoreEntities only", "a write through POST /transactions during a sync"),
+ "C10-r2a": ("worker results collected from a channel in completion order", "parallelism > 1, a later chunk finishing first"),
+ "C10-r2b": ("toJsonValue shortcut does not look into nested arrays", "JS transform writing an array of arrays of whole numbers, second run"),
+})
+
 rows = []
 for d in sorted(glob.glob('/verif/seeded/*/meta.json')):
     m = json.load(open(d))
@@ -52,6 +75,8 @@ for d in sorted(glob.glob('/verif/seeded/*/meta.json')):
     what, needs = DESC.get(k, ("", ""))
     conf = "yes" if m.get('confirmed') else "no (suite fails)"
     first = "caught" if m.get('caught_before_strengthening', m.get('caught_by_quick')) else "MISSED"
+    if 'r2' in k and 'baseline_verif_commit' not in m:
+        first = "?"
     if k in ("C18-a", "C18-b"):
         first = "check not built yet"
     final = "caught" if m.get('final_caught_by_quick') else ("missed" if 'final_caught_by_quick' in m else "?")
